@@ -174,6 +174,12 @@ GEN_TIES = {
         "gen": "gen_format.py", "gen_file": "GscribModel/Gen/FormatSrc.lean", "tie": "FormatTie", "validate": "harness.tie_format",
         "what": "the formatter model no longer equals DefaultFormatter translated from gscrib/formatters/default_formatter.py",
     },
+    "xform": {
+        "props": {"C04", "C13"},
+        "gen": "gen_xform.py", "gen_file": "GscribModel/Gen/XformSrc.lean", "tie": "XformTie", "validate": "harness.tie_xform",
+        "what": "the transform model no longer equals Transform / CoordinateTransformer translated from gscrib/geometry/transform.py "
+                "and gscrib/geometry/transformer.py",
+    },
     "state": {
         "props": {"C02", "C03", "C05", "C06", "C07"},
         "gen": "gen_state.py", "gen_file": "GscribModel/Gen/StateSrc.lean", "tie": "StateTie", "validate": "harness.tie_state",
